@@ -164,7 +164,7 @@ def run_property(pid, tier='quick', seed=0, out=sys.stdout):
         if not failing:
             rel = [f for n, f in standin_failures]
             failing = rel[0] if rel else None
-        payload = {'property': pid, 'obligation': r['name'], 'verdict': 'refuted', 'backend': r.get('backend'),
+        payload = {'property': pid, 'tier': tier, 'seed': seed, 'obligation': r['name'], 'verdict': 'refuted', 'backend': r.get('backend'),
                    'solver_model': r.get('model'), 'replay': rp, 'failing_input': failing,
                    'note': 'counter-model of the verification condition generated from the current source of /repo'}
         path = write_replay(pid, 'obligation', payload)
@@ -183,7 +183,7 @@ def run_property(pid, tier='quick', seed=0, out=sys.stdout):
         used_fail.add(key)
         if len(used_fail) > 3:
             continue
-        path = write_replay(pid, 'standin', {'property': pid, 'standin': nm, 'failing_input': frec,
+        path = write_replay(pid, 'standin', {'property': pid, 'tier': tier, 'seed': seed, 'standin': nm, 'failing_input': frec,
                                              'note': 'bounded stand-in: the real code disagrees with the reference on this input'})
         violations.append((path, True))
     seen_k = set()
@@ -273,3 +273,58 @@ def _cover_of(smt2):
     idx = smt2.rfind('(assert')
     j = smt2.find('(check-sat)', idx)
     return smt2[:idx] + smt2[j:]
+
+
+def replay_file(path):
+    """./check --replay <file>: re-decide exactly what a replay file records, on the current tree.
+    obligation replay: the VCs of the property are regenerated from the current source, the named obligation is discharged again;
+    stand-in replay: the named bounded job is run again with the recorded tier and seed.
+    exit 1 (+ VIOLATION line) when the recorded failure is still there, 0 when it is gone, 3 when the record cannot be replayed."""
+    rec = json.load(open(path))
+    pid, tier, seed = rec.get('property'), rec.get('tier', 'quick'), int(rec.get('seed', 0))
+    mod = importlib.import_module(f'props.{pid}')
+    if rec.get('obligation'):
+        H = Harness(tier)
+        H.property_id = pid
+        mod.build(H, tier, seed)
+        want = rec['obligation']
+        base = want.rsplit('#', 1)[0]
+        cand = [(n, s2) for n, s2, m in H.obls if n == want] or [(n, s2) for n, s2, m in H.obls if n.rsplit('#', 1)[0] == base]
+        if not cand:
+            oos = [f'{a}: {b}' for a, b in H.out_of_subset]
+            print(f'REPLAY property={pid} obligation not generated from the current source: {want}' + (f' (out-of-subset: {oos[:2]})' if oos else ''))
+            return 3 if oos else 0
+        from . import discharge as D
+        still = []
+        for n, s2 in cand:
+            if s2 is None:
+                continue            # trivially true after simplification
+            r = D.discharge([(n, s2)], timeout_ms=THOROUGH_TIMEOUT_MS)[0]
+            print(f'REPLAY {n}: {r["verdict"]}' + (f' model={str(r.get("model"))[:300]}' if r['verdict'] == 'sat' else ''))
+            if r['verdict'] == 'sat':
+                still.append(n)
+        if still:
+            print(f'VIOLATION property={pid} replay={path}' + ('' if rec.get('failing_input') else ' no-failing-input-found'))
+            return 1
+        print(f'REPLAY property={pid}: the recorded obligation is discharged on the current tree')
+        return 0
+    if rec.get('standin'):
+        jobs = [j for j in mod.standins(tier, seed) if j['name'] == rec['standin']]
+        if not jobs:
+            print(f'REPLAY property={pid}: stand-in {rec["standin"]} does not exist for tier={tier}')
+            return 3
+        res = nativerun.run_jobs([jobs[0]['job']], timeout=getattr(mod, 'STANDIN_TIMEOUT', 1500))[0]
+        if res.get('status') != 'ok':
+            print(f'REPLAY property={pid}: stand-in did not complete: {res.get("status")}')
+            return 3
+        known = [f for f in load_known() if f.get('property') == pid]
+        fails = [f for f in res.get('failures', []) if not any(finding_matches_failure(k, f) for k in known)]
+        for f in fails[:3]:
+            print('REPLAY failing input: ' + json.dumps(f, default=str)[:400])
+        if fails:
+            print(f'VIOLATION property={pid} replay={path}')
+            return 1
+        print(f'REPLAY property={pid}: stand-in {rec["standin"]} finds no failing input on the current tree ({res.get("evaluations")} evaluations)')
+        return 0
+    print('REPLAY: unrecognised replay file')
+    return 3
